@@ -31,6 +31,7 @@ SEC = 1000000000
 
 # Repairs the MODEL assumes to be present in the tree under test (all committed in /repo main, see notes/w2c.md "Follow-up"):
 #   D25  a refused write does not register its instance          (Model/WriterEnt.lean `entWrite`)
+#   D81  a write refused for max_instances does not evict first    (`evictWrite` / `roomFor`; fixes/D81.patch)
 #   D34  the worker purges expired samples before every mail       (`step`, World.iterate; the line `# assume-fix D34` that
 #        scenarios still start with is accepted and ignored by the model since the follow-up)
 #   D2/D8, D4/D42, D43: contiguous-only GAP on the reader, DATA after a gap, proxy kept on re-match
@@ -506,6 +507,9 @@ def writer_oracle(case, out):
     by_index = {x["i"]: x for x in w.writes}
     unreg_at = {u["i"]: u for u in w.unregs}
     look = {i: (k, o) for i, k, o in w.lookups}
+    # D81: a write refused for max_instances on an UNREGISTERED instance whose KEEP_LAST deque is full used to evict the
+    # oldest sample before it was refused; from then on the implementation holds fewer samples than a conforming writer
+    d81_suspect = False
     for i, l in enumerate(case.lines):
         if i in unreg_at:
             u = unreg_at[i]
@@ -530,14 +534,21 @@ def writer_oracle(case, out):
                 why = "max_samples_per_instance"
             elif ms is not None and total >= ms:
                 why = "max_samples"
+            if ans == "err:OutOfResources" and why == "max_instances" and depth is not None and count.get(k, 0) == depth:
+                d81_suspect = True
             if ans == "err:OutOfResources":
                 if why is None:
                     viol.append({"what": f"op {i} `{l}` answered OutOfResources although no limit would be exceeded "
                                          f"(instances {len(registered)}/{mi}, samples of the instance {n_k}/{mspi}, samples {total}/{ms})", "at": i})
             elif ans == "ok":
                 if why is not None:
-                    viol.append({"what": f"op {i} `{l}` was accepted although it exceeds {why} "
-                                         f"(instances {len(registered)}/{mi}, samples of the instance {n_k}/{mspi}, samples {total}/{ms})", "at": i})
+                    v = {"what": f"op {i} `{l}` was accepted although it exceeds {why} "
+                                 f"(instances {len(registered)}/{mi}, samples of the instance {n_k}/{mspi}, samples {total}/{ms})"
+                                 + ("; an earlier write to an unregistered, full instance was refused for max_instances - a refused write "
+                                    "must not evict a stored sample" if d81_suspect and why != "max_instances" else ""), "at": i}
+                    if d81_suspect and why != "max_instances":
+                        v["cause"] = "refused-write-evicts-oldest-sample"
+                    viol.append(v)
                 count[k] = n_k + 1
                 registered.add(k)
                 accepted.setdefault(k, []).append(x["val"])
@@ -572,6 +583,12 @@ def writer_nontrivial(case, out):
 
 
 WRITER_CORPUS = [
+    # D81: a write refused for max_instances on an unregistered, full KEEP_LAST instance must not evict a sample first
+    TEMPLATE + ["writer w pub t1 reliability=reliable history=keep_last:3 max_samples=4 max_instances=1 max_spi=3 max_blocking=0",
+                "reader r sub t2 reliability=reliable history=keep_all",
+                "now", "write w 2 1", "now", "now", "write w 2 2", "now", "now", "write w 2 3", "now", "unregister w 2",
+                "now", "write w 1 4", "now", "now", "write w 2 5", "now", "now", "write w 2 6", "now", "now", "write w 1 7", "now",
+                "lookup w 1", "lookup w 2", "clear-faults", "release", "advance 300000000", "now", "take r"],
     # D25 (DESIGN 7.1): limits (1 sample, 2 instances): write A ok, write B refused, lookup_instance(B) answers the handle
     TEMPLATE + ["writer w pub t1 reliability=reliable history=keep_all max_samples=1 max_instances=2 max_spi=1",
                 "now", "write w 1 1", "now", "now", "write w 2 2", "now", "lookup w 1", "lookup w 2", "lookup w 3"],
